@@ -124,19 +124,22 @@ impl Members {
     // A result of `true` means that the effective list of
     // cluster member addresses has changed
     pub fn remove_member(&mut self, actor: &Actor) -> bool {
-        let effectively_down = if let Some(member) = self.states.get(&actor.id()) {
-            member.ts == actor.ts()
-        } else {
-            // Shouldn't happen
-            false
-        };
+        // The identity we list, or a newer one we were never told came up
+        // (SWIM renames are not reported as member-up), is down.
+        // Notifications about older identities are ignored.
+        let listed_addr = self.states.get(&actor.id()).and_then(|member| {
+            (actor.ts().to_duration() >= member.ts.to_duration()).then_some(member.addr)
+        });
 
-        if effectively_down {
-            self.by_addr.remove(&actor.addr());
+        if let Some(addr) = listed_addr {
+            // the address may have been taken over by another member since
+            if self.by_addr.get(&addr) == Some(&actor.id()) {
+                self.by_addr.remove(&addr);
+            }
             self.states.remove(&actor.id());
         }
 
-        effectively_down
+        listed_addr.is_some()
     }
 
     pub fn add_rtt(&mut self, addr: SocketAddr, rtt: Duration) {
